@@ -23,14 +23,19 @@ def generate(rng, tier):
     n = 90 if tier == "quick" else 2500
     for _ci in range(n):
         yield gen_seq_case(rng) if rng.random() < 0.7 else gen_el_case(rng)
+    for _ci in range(2 if tier == "quick" else 12):
+        # very long channels (> 2**16 samples): result caches / fast paths keyed on size must not make a repeated read differ
+        yield gen_seq_case(rng, very_long=True) if rng.random() < 0.5 else gen_el_case(rng, very_long=True)
 
 
-def gen_seq_case(rng):
+def gen_seq_case(rng, very_long=False):
     regs = Regs()
     SR = rng.choice([100, 1000.0, 1e4])
-    long = rng.random() < 0.15
+    long = rng.random() < 0.15 or very_long
     N = 2400 if long else rng.randint(6, 30)
-    chans = rng.sample(CHAN_POOL, rng.randint(1, 3))
+    if very_long:
+        N = rng.choice([70001, 90000])
+    chans = rng.sample(CHAN_POOL, rng.randint(1, 3) if not very_long else rng.randint(1, 2))
     kinds = {c: rng.choice(["bp", "bp", "arr"]) for c in chans}
     s, prog, meta = build_sequence(rng, regs, SR, N, chans, rng.randint(1, 3 if not long else 2), kinds, ["ramp", "ua", "sine"],
                                    subs=(rng.random() < 0.3 and not long), waits=True, flags=True)
@@ -66,11 +71,11 @@ def gen_seq_case(rng):
             "has_arr": "arr" in kinds.values(), "has_sub": "sub" in meta["positions"].values()}
 
 
-def gen_el_case(rng):
+def gen_el_case(rng, very_long=False):
     from .elgen import build_element
     regs = Regs()
     SR = rng.choice([100, 1000.0])
-    N = rng.randint(6, 30)
+    N = rng.randint(6, 30) if not very_long else rng.choice([70001, 90000])
     chans = rng.sample(CHAN_POOL, rng.randint(1, 3))
     e, prog = build_element(rng, regs, SR, N, chans, waits=True, flags=True)
     cp = regs.E()
